@@ -49,6 +49,7 @@ theorem applyFrame_carries (idx : Nat) (f : Frame) (cjs : Bool) {v : JsVal} {fl 
             exceptionFromValue, wrapJSFuncE, returnErr, wrapReflectErr, hu, Carries]
       · simp [Frame.unwraps] at hu
     | ja => simp [Frame.swallows] at hsw
+    | fcs => simp [Frame.swallows] at hsw
     | rfw => simp [Frame.rewraps] at hrw
     | _ =>
       cases cjs <;>
@@ -67,6 +68,7 @@ theorem applyFrame_carries (idx : Nat) (f : Frame) (cjs : Bool) {v : JsVal} {fl 
             exceptionFromValue, wrapJSFuncE, returnErr, wrapReflectErr, hu, Carries]
       · simp [Frame.unwraps] at hu
     | ja => simp [Frame.swallows] at hsw
+    | fcs => simp [Frame.swallows] at hsw
     | rfw => simp [Frame.rewraps] at hrw
     | _ =>
       cases cjs <;>
@@ -87,6 +89,9 @@ theorem applyFrame_swallow (idx : Nat) (f : Frame) (cjs : Bool) {v : JsVal} {fl 
           JsKind.hasFinally, JsKind.rethrows, LogOk]
   · rcases carries_cases hc with ⟨o, rfl⟩ | ⟨t, o, rfl⟩ <;>
       simp [applyFrame, handleThrow, handleThrowLoop, exceptionFromValue, LogOk]
+  · rcases carries_cases hc with ⟨o, rfl⟩ | ⟨t, o, rfl⟩ <;> cases cjs <;>
+      simp [applyFrame, callable, invoke, jsCall, runWrapped, vmTry, handleThrow, handleThrowLoop,
+        exceptionFromValue, LogOk]
 
 theorem evalSeg_carries (s : Seg) (ijs : Bool) {v : JsVal} {fl : Flow}
     (hsw : ∀ q ∈ s, q.2.swallows = false) (hrw : ∀ q ∈ s, q.2.rewraps = false)
